@@ -699,6 +699,8 @@ def check(run):
     A = run.A
     from ..opt import check_optional_truthiness, check_params_reach, check_forwarding, check_stale_loop_variables, check_argument_names, check_none_use
     check_none_use(run, A, ('pb_bss.evaluation.',))
+    from ..opt import check_partial_buffer_reads
+    check_partial_buffer_reads(run, A, ('pb_bss.evaluation.',))
     check_argument_names(run, A, ('pb_bss.evaluation.',))
     check_stale_loop_variables(run, A, ('pb_bss.evaluation.',))
     from ..opt import check_extent_loops
